@@ -467,6 +467,33 @@ func CatchShapes() []*prog.Program {
 		e := b.AddNode("end", "")
 		b.Connect(t, e, prog.Cond{})
 	})
+	// two tokens reach the SAME catch event (parallel fork, merged by an exclusive gateway):
+	// one event releases both, each continues once
+	mk("catch_two_tokens", func(b *prog.Builder) {
+		s := b.AddNode("start", "")
+		f := b.AddNode("and", "")
+		x := b.AddNode("xor", "")
+		b.Connect(s, f, prog.Cond{})
+		b.Connect(f, x, prog.Cond{})
+		b.Connect(f, x, prog.Cond{})
+		t := catchTask(b, x, sig("A"))
+		e := b.AddNode("end", "")
+		b.Connect(t, e, prog.Cond{})
+	}, "catch-two-tokens")
+	// the second token arrives while the catch event already listens (behind a task)
+	mk("catch_second_late", func(b *prog.Builder) {
+		s := b.AddNode("start", "")
+		f := b.AddNode("and", "")
+		x := b.AddNode("xor", "")
+		d := b.AddNode("task", "")
+		b.Connect(s, f, prog.Cond{})
+		b.Connect(f, x, prog.Cond{})
+		b.Connect(f, d, prog.Cond{})
+		b.Connect(d, x, prog.Cond{})
+		t := catchTask(b, x, sig("A"))
+		e := b.AddNode("end", "")
+		b.Connect(t, e, prog.Cond{})
+	}, "catch-two-tokens")
 	mk("catch_msg", func(b *prog.Builder) {
 		s := b.AddNode("start", "")
 		t := catchTask(b, s, []prog.EvDef{{K: "message", Ref: "M"}})
@@ -685,6 +712,43 @@ func BoundaryShapes() []*prog.Program {
 	build("bnd_nn", []bool{false, false}, false)
 	build("bnd_sub_i", []bool{true}, true)
 	build("bnd_sub_n", []bool{false}, true)
+	// the host is activated again (loop back from a decision behind it): an event that arrives
+	// during the SECOND wait reaches the boundary event as well
+	// (non-interrupting only: the interrupting kind does not interrupt at all, findings F10..F10c)
+	for _, intr := range []bool{false} {
+		b := prog.NewBuilder(fmt.Sprintf("bnd_loop_%v", intr))
+		s := b.AddNode("start", "")
+		m := b.AddNode("xor", "")
+		host := b.AddNode("task", "")
+		b.N(host).Writes = []string{"again"}
+		b.P.Dom["again"] = []int{0, 1}
+		b.P.Vars0["again"] = 0
+		x := b.AddNode("xor", "")
+		tn := b.AddNode("task", "")
+		en := b.AddNode("end", "")
+		b.Connect(s, m, prog.Cond{})
+		b.Connect(m, host, prog.Cond{})
+		b.Connect(host, x, prog.Cond{})
+		b.Connect(x, m, prog.Cond{K: "eq", V: "again", C: 1})
+		d := b.Connect(x, tn, prog.Cond{})
+		b.N(x).Default = d
+		b.Connect(tn, en, prog.Cond{})
+		bd := b.AddNode("boundary", "")
+		b.N(bd).Attached = host
+		b.N(bd).Intr = intr
+		b.N(bd).Evs = sig("A")
+		tx := b.AddNode("task", "")
+		ex := b.AddNode("end", "")
+		b.Connect(bd, tx, prog.Cond{})
+		b.Connect(tx, ex, prog.Cond{})
+		if intr {
+			b.P.Tags = append(b.P.Tags, "boundary-interrupting")
+		} else {
+			b.P.Tags = append(b.P.Tags, "boundary-noninterrupting")
+		}
+		b.P.Tags = append(b.P.Tags, "boundary", "loop", "boundary-host-reentry")
+		out = append(out, b.Done())
+	}
 	return out
 }
 
